@@ -293,10 +293,12 @@ def run(prog: Program, chk: Check):
         wiring = {"constants": ("generate_constant",), "string_constants": ("generate_string_constant", "generate_constant_string"), "host_ids": ("generate_host_id",),
                   "module_ids": ("generate_module_id",), "message_ids": ("generate_msg_type_id",), "message_defs": ("generate_hash_id",)}
         for table, accepted in wiring.items():
-            loops = [lp for lp in walk_local(gen.node) if isinstance(lp, ast.For) and norm(lp.iter) == f"self.parser.{table}.values()"]
+            from ..util import iterations
+
             hit = False
-            for lp in loops:
-                for c in calls_in(lp):
+            gcm = guards.copy_map(gen.node)
+            for lp in [i_ for i_ in iterations(gen.node) if norm(guards.subst(i_.iter, gcm)) == f"self.parser.{table}.values()"]:
+                for c in lp.calls():
                     if isinstance(c.func, ast.Attribute) and path_of(c.func.value) == "self" and c.args and path_of(c.args[0]) == path_of(lp.target):
                         if c.func.attr in accepted:
                             hit = True
@@ -325,7 +327,11 @@ def run(prog: Program, chk: Check):
         S.decide(oks, f"{PAR}::{cls}.size", pm.rel, "size = sum of field sizes (unfiltered)", f"{cls}.size is {body}")
     fi = pm.functions.get("Field.size")
     body = [norm(n.value) for n in walk_local(fi.node) if isinstance(n, ast.Return)] if fi else []
-    S.decide(body == ["self.type_obj.size * (self.length or 1)"], f"{PAR}::Field.size", pm.rel, "field size = element size * (length or 1)", f"Field.size is {body}")
+    # `base_size` is the existing property returning self.type_obj.size
+    bs = pm.functions.get("Field.base_size")
+    bs_body = [norm(n.value) for n in walk_local(bs.node) if isinstance(n, ast.Return)] if bs else []
+    ok_bs = body == ["self.base_size * (self.length or 1)"] and bs_body == ["self.type_obj.size"]
+    S.decide(body == ["self.type_obj.size * (self.length or 1)"] or ok_bs, f"{PAR}::Field.size", pm.rel, "field size = element size * (length or 1)", f"Field.size is {body}")
     py = prog.cls(*BACKENDS["python"])
     for fn in ("generate_struct", "generate_msg_def"):
         fi = py.methods[fn]
